@@ -1108,4 +1108,130 @@ theorem redLoop_spec (T dn D : Nat) (hT : 6 ≤ T) (hdn : 3 ≤ dn) (hD : D < B 
       subst e
       exact ⟨rfl, rfl, 0, by simp, by simp, by simp, hW⟩
 
+/-! ## the whole routine -/
+
+/-- what a call of mpn_dc_divappr_q guarantees, relative to the divisor limbs it uses (dn = min (dn0, qn0 + 1) of them, Dc) and
+    the dividend limbs it reads (Nc) -/
+def CallSpec (nn dn0 N D0 : Nat) (r : Res) : Prop :=
+  let qn0 := nn - dn0
+  let dn := if qn0 + 1 < dn0 then qn0 + 1 else dn0
+  let Dc := D0 / B ^ (dn0 - dn)
+  let Nc := N / B ^ (dn0 - dn)
+  r.ok = true ∧ r.q < B ^ qn0 ∧ r.qh ≤ 1 ∧ r.wl ≤ 1 ∧
+  Nc < (r.qh * B ^ qn0 + r.q + 1) * Dc ∧ (r.qh * B ^ qn0 + r.q) * Dc ≤ Nc + (dn - 1) * B ^ (dn - 1) ∧
+  (qn0 + 1 < dn0 → Nc / B ^ qn0 < Dc → r.qh = 0 ∧ Nc / B ^ (qn0 - 1) = tS Dc r.q qn0 + r.r3)
+
+theorem dcDivapprF_succ (rep : Bool) (T C : Nat) (leaf : Leaf) (fuel nn dn0 N D0 : Nat) :
+    dcDivapprF rep T C leaf (fuel + 1) nn dn0 N D0 =
+      (let qn0 := nn - dn0
+       let cut := decide (qn0 + 1 < dn0)
+       let D := if cut then D0 / B ^ (dn0 - (qn0 + 1)) else D0
+       let dn := if cut then qn0 + 1 else dn0
+       let top := N / B ^ (nn - dn)
+       let qh := if top ≥ D then 1 else 0
+       let top := if qh ≠ 0 then top - D else top
+       let W0 := N / B ^ (nn - dn - qn0) % B ^ qn0 + B ^ qn0 * top
+       let lp := redLoop T dn D qn0 qn0 W0 0 true
+       let n := lp.1
+       let ok0 := lp.2.2.2 && decide (dn = n + 1) && decide (2 ≤ n)
+       dcTail rep C leaf (fun a b c d => dcDivapprF rep T C leaf fuel a b c d) n dn lp.2.1 D lp.2.2.1 qh qn0 ok0) := rfl
+
+/-- the core of a call once the cut is resolved: dn limbs of divisor Dc, s ignored limbs -/
+theorem call_core (T C : Nat) (hT : 6 ≤ T) (fuel qn0 dn Nc Dc : Nat) (hdn4 : 4 ≤ dn) (hdnq : dn ≤ qn0 + 1)
+    (hDc : Dc < B ^ dn) (hnorm : B ^ dn ≤ 2 * Dc) (hNc : Nc < B ^ (dn + qn0)) (hsz : 2 * dn + 2 ≤ B)
+    (hrec : RecOK C (dn - 1) dn Dc (fun a b c d => dcDivapprF true T C sbLeaf fuel a b c d))
+    (top qh top' W0 : Nat) (etop : top = Nc / B ^ qn0) (eqh : qh = if top ≥ Dc then 1 else 0)
+    (etop' : top' = if qh ≠ 0 then top - Dc else top) (eW0 : W0 = Nc % B ^ qn0 + B ^ qn0 * top')
+    (lp : Nat × Nat × Nat × Bool) (elp : lp = redLoop T dn Dc qn0 qn0 W0 0 true) (r : Res)
+    (er : r = dcTail true C sbLeaf (fun a b c d => dcDivapprF true T C sbLeaf fuel a b c d) lp.1 dn lp.2.1 Dc lp.2.2.1 qh qn0
+      (lp.2.2.2 && decide (dn = lp.1 + 1) && decide (2 ≤ lp.1))) :
+    r.ok = true ∧ r.q < B ^ qn0 ∧ r.qh ≤ 1 ∧ r.wl ≤ 1 ∧ r.qh = qh ∧
+    Nc < (r.qh * B ^ qn0 + r.q + 1) * Dc ∧ (r.qh * B ^ qn0 + r.q) * Dc ≤ Nc + (dn - 1) * B ^ (dn - 1) ∧
+    (dn = qn0 + 1 → qh = 0 → Nc / B ^ (qn0 - 1) = tS Dc r.q qn0 + r.r3) := by
+  have hB := B_pos
+  have hPq := Bpow_pos qn0
+  have hD0 : 0 < Dc := by have := Bpow_pos dn; omega
+  have htop : top < B ^ dn := by
+    rw [etop, Nat.div_lt_iff_lt_mul hPq, ← pow_add]; exact hNc
+  have hqh : qh ≤ 1 := by
+    rw [eqh]; split <;> omega
+  have htop' : top = qh * Dc + top' ∧ top' < Dc := by
+    rw [etop', eqh]
+    by_cases h : top ≥ Dc
+    · rw [if_pos h]; simp only [ne_eq, one_ne_zero, not_false_eq_true, if_true, Nat.one_mul]; omega
+    · rw [if_neg h]; simp only [ne_eq, not_true_eq_false, if_false, Nat.zero_mul]; omega
+  obtain ⟨ht1, ht2⟩ := htop'
+  have hNcdm := Nat.div_add_mod Nc (B ^ qn0)
+  have hNcm := Nat.mod_lt Nc hPq
+  rw [← etop] at hNcdm
+  have hW0 : W0 < Dc * B ^ qn0 := by
+    rw [eW0]
+    have : B ^ qn0 * (top' + 1) ≤ B ^ qn0 * Dc := Nat.mul_le_mul_left _ ht2
+    nlinarith
+  have hNcW : Nc = qh * Dc * B ^ qn0 + W0 := by
+    rw [eW0]
+    have : B ^ qn0 * top = B ^ qn0 * (qh * Dc + top') := by rw [← ht1]
+    have e : B ^ qn0 * (qh * Dc + top') = qh * Dc * B ^ qn0 + B ^ qn0 * top' := by ring
+    omega
+  obtain ⟨l1, l2, Qr, l3, l4, l5, l6⟩ := redLoop_spec T dn Dc hT (by omega) hDc hnorm qn0 qn0 W0 0 true (by omega) (by omega) hW0
+  rw [← elp] at l1 l2 l4 l5 l6
+  have hok0 : (lp.2.2.2 && decide (dn = lp.1 + 1) && decide (2 ≤ lp.1)) = true := by
+    rw [l1, l2]; simp; omega
+  have hn : lp.1 = dn - 1 := l1
+  have hspec := dcTail_spec C (dn - 1) dn lp.2.1 Dc lp.2.2.1 qh qn0 (lp.2.2.2 && decide (dn = lp.1 + 1) && decide (2 ≤ lp.1))
+    (fun a b c d => dcDivapprF true T C sbLeaf fuel a b c d) hrec (by omega) (by omega)
+    (by rw [show dn - 1 + 1 = dn by omega]; exact hDc) (by rw [show dn - 1 + 1 = dn by omega]; exact hnorm) l6 (by omega) hqh
+  have hr : r = dcTail true C sbLeaf (fun a b c d => dcDivapprF true T C sbLeaf fuel a b c d) (dn - 1) dn lp.2.1 Dc lp.2.2.1 qh qn0
+      (lp.2.2.2 && decide (dn = lp.1 + 1) && decide (2 ≤ lp.1)) := by
+    rw [er, hn]
+  rw [← hr] at hspec
+  obtain ⟨t1, t2, t3, Ql, t4, t5, t6, t7⟩ := hspec
+  rw [hok0] at t1
+  have l4' : lp.2.2.1 = Qr := by
+    rw [l4]; simp
+  rw [l4'] at t5
+  have l5' : W0 = Qr * Dc * B ^ (dn - 1) + lp.2.1 := l5
+  generalize lp.2.1 = Wr at *
+  have ePq : B ^ qn0 = B ^ (qn0 - (dn - 1)) * B ^ (dn - 1) := by rw [← pow_add]; congr 1; omega
+  have hqlt : r.q < B ^ qn0 := by
+    rw [t5, ePq]
+    have : (Qr + 1) * B ^ (dn - 1) ≤ B ^ (qn0 - (dn - 1)) * B ^ (dn - 1) := Nat.mul_le_mul_right _ l3
+    nlinarith
+  -- Ql·Dc ≤ Wr + n·B^n
+  have hup : Ql * Dc ≤ Wr + (dn - 1) * B ^ (dn - 1) := by
+    have hb := (tS_bounds (dn - 1) Dc Ql t4).2
+    have h1 : B ^ (dn - 1 - 1) * (Wr / B ^ (dn - 1 - 1)) ≤ Wr := Nat.mul_div_le _ _
+    have e1 : B ^ (dn - 1) = B * B ^ (dn - 1 - 1) := by rw [← pow_succ']; congr 1; omega
+    have e2 : B ^ (dn - 1 + 1) = B * B ^ (dn - 1) := by rw [pow_succ']
+    rw [e2] at hb
+    have h2 : B ^ (dn - 1 - 1) * tS Dc Ql (dn - 1) ≤ B ^ (dn - 1 - 1) * (Wr / B ^ (dn - 1 - 1)) :=
+      Nat.mul_le_mul_left _ (by omega)
+    have h3 : B * (Ql * Dc) ≤ B * (Wr + (dn - 1) * B ^ (dn - 1)) := by
+      calc B * (Ql * Dc) ≤ B ^ (dn - 1) * tS Dc Ql (dn - 1) + (dn - 1) * (B * B ^ (dn - 1)) := hb
+        _ = B * (B ^ (dn - 1 - 1) * tS Dc Ql (dn - 1)) + B * ((dn - 1) * B ^ (dn - 1)) := by rw [e1]; ring
+        _ ≤ B * Wr + B * ((dn - 1) * B ^ (dn - 1)) := by
+            have := Nat.mul_le_mul_left B (le_trans h2 h1); omega
+        _ = B * (Wr + (dn - 1) * B ^ (dn - 1)) := by ring
+    exact Nat.le_of_mul_le_mul_left h3 hB
+  have hQf : r.qh * B ^ qn0 + r.q = qh * B ^ qn0 + Qr * B ^ (dn - 1) + Ql := by rw [t2, t5]; ring
+  have hNc2 : Nc = (qh * B ^ qn0 + Qr * B ^ (dn - 1)) * Dc + Wr := by rw [hNcW, l5']; ring
+  refine ⟨t1, hqlt, by rw [t2]; exact hqh, t3, t2, ?_, ?_, ?_⟩
+  · have e : r.qh * B ^ qn0 + r.q + 1 = qh * B ^ qn0 + Qr * B ^ (dn - 1) + (Ql + 1) := by rw [hQf]; ring
+    rw [e, hNc2]
+    have : (qh * B ^ qn0 + Qr * B ^ (dn - 1) + (Ql + 1)) * Dc = (qh * B ^ qn0 + Qr * B ^ (dn - 1)) * Dc + (Ql + 1) * Dc := by ring
+    omega
+  · rw [hQf, hNc2]
+    have : (qh * B ^ qn0 + Qr * B ^ (dn - 1) + Ql) * Dc = (qh * B ^ qn0 + Qr * B ^ (dn - 1)) * Dc + Ql * Dc := by ring
+    omega
+  · intro hdq hq0
+    have e0 : qn0 - (dn - 1) = 0 := by omega
+    rw [e0, pow_zero] at l3
+    have hQr0 : Qr = 0 := by omega
+    rw [hQr0, Nat.zero_mul, Nat.zero_add] at t5
+    rw [hq0, hQr0] at hNc2
+    simp only [Nat.zero_mul, Nat.add_zero, Nat.zero_add] at hNc2
+    have e1 : dn - 1 = qn0 := by omega
+    rw [e1] at t7
+    rw [t5, hNc2]; exact t7
+
 end Mpir.DcDivappr
